@@ -92,6 +92,12 @@ MENU: list[tuple[str, str]] = [
     # and node positions differ there
     ("kwonly", "def h(*, scale, offset=1):\n    return scale + offset"),
     ("dictspread", 'a = {**b, "retries": 3, **c, 1: 2}'),
+    # two mutation sites of ONE operator nested in a single-node field (not in a list): the outer site is
+    # replaced first, the inner sites are enumerated afterwards from the same generator
+    ("notnotin", "return not (a not in b)"),
+    ("negpos", "a = -(+b)"),
+    ("lam2", "a = lambda: (lambda: 1)"),
+    ("slice3", "a = b[c[1:]:3]"),
 ]
 MENU_NAMES = [n for n, _ in MENU]
 _SRC = dict(MENU)
